@@ -248,7 +248,7 @@ def selftest(ids):
     import subprocess
     import tempfile
     seeded = os.path.join(VERIF, 'seeded')
-    ids = ids or sorted(os.listdir(seeded))
+    ids = ids or sorted(d for d in os.listdir(seeded) if os.path.exists(os.path.join(seeded, d, 'patch.diff')))
     bad = []
     for sid in ids:
         wt = tempfile.mkdtemp(prefix='hpfeeds_selftest_', dir='/var/tmp')
